@@ -96,12 +96,12 @@ def run_bounded(chk):
     # ---- polyhedra
     solids = []
     named = corpus.named_convex()
-    for name in ("cube", "skew_tet", "chiral5", "prism5") if chk.tier == "quick" else list(named)[:10]:
+    for name in ("cube", "skew_tet", "chiral5", "prism5") if chk.bounded_tier == "quick" else list(named)[:10]:
         pts = np.asarray(named[name], float) + np.array([0.7, -0.4, 1.1])
         faces = oracle.hull_facets(named[name])
         solids.append((f"convex:{name}", "ConvexPolyhedron", pts, faces))
         solids.append((f"mesh:{name}", "Polyhedron", pts, faces))
-    for name in ("U7", "frame8") if chk.tier == "quick" else ("U7", "C5", "frame8", "stairs"):
+    for name in ("U7", "frame8") if chk.bounded_tier == "quick" else ("U7", "C5", "frame8", "stairs"):
         verts, faces = B2.voxel_mesh(B2.voxel_solids()[name])
         solids.append((f"voxel:{name}", "Polyhedron", np.asarray(verts, float) - 0.3, faces))
     for tag, klass, P, faces in solids:
@@ -114,7 +114,7 @@ def run_bounded(chk):
             a, b, c = P[f[0]], P[f[1]], P[f[2]]
             normals.append(np.cross(b - a, c - a))
         edges = [P[f[1]] - P[f[0]] for f in faces]
-        Q = q_set(size, normals, edges, rng, chk.tier)
+        Q = q_set(size, normals, edges, rng, chk.bounded_tier)
         exact1 = np.array([ft_mesh(q, P, tris) for q in Q])
         vol = abs(float(oracle.mesh_measures(P.tolist(), tris)[0]))
         for density in (1.0, 2.5):
@@ -145,7 +145,7 @@ def run_bounded(chk):
                 nrm = Rf[:, 2]
                 shape = cox.shapes.Polygon(P3, normal=nrm)
                 size = float(np.ptp(pts2, axis=0).max())
-                Q = q_set(size, [nrm], [P3[1] - P3[0]], rng, chk.tier)
+                Q = q_set(size, [nrm], [P3[1] - P3[0]], rng, chk.bounded_tier)
                 e1, e2 = Rf[:, 0], Rf[:, 1]
                 A = abs(float(oracle.polygon_measures_2d(pts2.tolist())[0]))
                 ccw = pts2            # the region does not depend on the listing order
@@ -166,7 +166,7 @@ def run_bounded(chk):
     for R_, c in ((1.3, (0, 0, 0)), (0.4, (2.0, -1.0, 0.5))):
         n_cases += 1
         shape = cox.shapes.Sphere(R_, c)
-        Q = q_set(R_, [np.array([0, 0, 1.0])], [np.array([1.0, 0, 0])], rng, chk.tier)
+        Q = q_set(R_, [np.array([0, 0, 1.0])], [np.array([1.0, 0, 0])], rng, chk.bounded_tier)
         qn = np.linalg.norm(Q, axis=1)
         with np.errstate(all="ignore"):
             ex = np.where(qn < 1e-12, 4 / 3 * math.pi * R_**3, 4 * math.pi * (np.sin(qn * R_) - qn * R_ * np.cos(qn * R_)) / np.where(qn < 1e-12, 1, qn)**3)
